@@ -3,7 +3,7 @@
 EXTRA_BUILDS = {}
 
 HOOK_COMMITS = ["7bc0d60"]
-FIX_COMMITS = ["243874c"]
+FIX_COMMITS = ["243874c", "428186b", "52f0108", "243864d", "8c765f6", "203eb57"]
 
 NOT_APPLICABLE = {}
 
@@ -190,5 +190,53 @@ CHECKS = {
                       "exploration of schedules by repetition, not proof",
         "level_note": "free-running OS scheduling; the server-level row is part of the server driver",
         "technique": "runtime monitoring: conservation/bound monitors on admission counters under concurrent load",
+    },
+    "C01": {
+        "level": "fault_enumeration",
+        "rule": "one case = seeded configuration (metric x dim x capacity {4,8,large} x snapshot interval {1,2,3,5,large} x rotation size "
+                "{64,160,512 B,large} x fsync policy {Always, Periodic(0), Periodic(50ms), Never} x HnswBackend|TieredEngine) + seeded history "
+                "(insert/overwrite/delete/batch delete/metadata update/manual snapshot/clean restart) run once under the fsshim LD_PRELOAD "
+                "tracer with BEGIN/ACK marks in the same total order as the file-system effects. EVERY crash point between two consecutive "
+                "effects (open-create, write, fsync, fdatasync, ftruncate, rename, unlink) plus torn prefixes {1,4,half,len-1} of every write is "
+                "materialised under the process-kill model and, where the fsync policy promises it, under power-loss variants (all-lost, "
+                "dir-lost, data-lost, seeded in-order mixed prefixes); the real strict recovery runs on each state and the result must be "
+                "bit-exactly the acknowledged model or acknowledged + the one in-flight op; for sampled states the recovery itself is traced "
+                "and crashed before each of its own effects (same outcome required). The replayer is validated per case against the real "
+                "directory. distinct_nontrivial = distinct (case, crash point, loss variant, torn length) states recovered",
+        "legs": [{"name": "crash-points", "argv": ["c01"], "shards": 16, "preload": "fsshim", "needs": ["fsshim"]}],
+        "assumptions": COMMON_ASSUME + ["the loss model is the property's own (bytes since a file's last fsync and directory changes since the last directory fsync may be dropped, in order)",
+                                         "start-up policy as in kyrodb_server: recover (strict) when MANIFEST exists, fresh store otherwise",
+                                         "Periodic(ms>0) and Never policies are judged under the kill model only at library level; the periodic clause and SIGKILL of the real binary belong to the server leg"],
+        "min_evaluations": 16,
+        "level_text": "exhaustive enumeration of the crash points of recorded executions (every gap between consecutive file-system effects, with "
+                      "torn writes and power-loss variants), each decided by running the real recovery code and comparing with a reference model; "
+                      "fault enumeration over observed executions, not a proof over all histories",
+        "level_note": "trusted: the fsshim tracer (validated against the real directory every case) and the persistence model of the replayer; "
+                      "real device behaviour is out of reach",
+        "technique": "runtime monitoring: syscall-level effect tracing + crash-state enumeration + recovery oracle",
+    },
+    "C03": {
+        "level": "fault_enumeration",
+        "rule": "two legs. invalid-inputs: the full grid of 12 input classes (wrong dimension short/long, zero, NaN lane, +-inf lane, overflowing "
+                "norm, subnormal norm, all-NaN, index full, index full with tombstones, valid control) x 4 write paths (HnswBackend::insert, "
+                "TieredEngine::insert, bulk_load_cold_tier, drain repair) x 3 metrics x {new id, overwrite of a live id}; oracle: Err => live and "
+                "recovered collection unchanged, Ok => readable, finite and durable; S; a later write stays durable. storage-faults (under "
+                "fsshim): seeded history with one fault plan armed at a seeded operation: errno in {ENOSPC,EIO,EDQUOT,EINTR,EACCES} at the n-th "
+                "write/fsync/fdatasync/rename/open/unlink of that operation, short counts followed by failing continuations, partial data on EIO, "
+                "repeated failures across the engine's retries, and double/triple faults on the rollback truncate/fdatasync; after every later op "
+                "live == model, at the end S, restart == model (acknowledged ops only), a post-restart write survives another restart. "
+                "distinct_nontrivial = distinct (class, path, metric, overwrite) cells resp. distinct (fault plan, faulted op kind, position, policy)",
+        "legs": [
+            {"name": "invalid-inputs", "argv": ["c03"], "args": {"leg": "invalid-inputs"}, "shards": 16},
+            {"name": "storage-faults", "argv": ["c03"], "args": {"leg": "storage-faults"}, "shards": 16, "preload": "fsshim", "needs": ["fsshim"]},
+        ],
+        "assumptions": COMMON_ASSUME + ["fault realism: only EIO may leave partial data behind a failing call; short counts are followed by a separate failing call",
+                                         "refusing further writes after a storage fault (breaker, degraded, poisoned WAL) is allowed and only counted"],
+        "min_evaluations": 500,
+        "level_text": "enumeration of invalid-input classes on every write path and seeded injection of storage faults (including faults on the "
+                      "engine's own rollback and retry) into the real engine through an LD_PRELOAD shim, judged by a reference model live and "
+                      "after restart; fault enumeration, not proof",
+        "level_note": "trusted: the shim's fault injection; faults in syscalls the shim does not wrap are out of reach (none used by persistence.rs)",
+        "technique": "runtime monitoring: fault injection at syscall level + model differential live and after restart",
     },
 }
